@@ -59,6 +59,14 @@ fn shape_query(rng: &mut Rng, lang: &str, lobj: &Lang, recs: &[Rec], which: Whic
         return gen::hostile(rng, 5);
     }
     let title = &rng.pick(recs).1;
+    {
+        // a title of more than 64 words: ask for one of its last words only (the matched word's number is beyond 64)
+        let tok = gen::tok_record(lobj, title);
+        if tok.words.len() > 64 && rng.chance(1, 2) {
+            let wi = tok.words.len() - 1 - rng.below(3);
+            return s(word_chars(&tok, wi));
+        }
+    }
     match rng.below(12) {
         0 => String::new(),
         1 => rng.pick(&[" ", "-", "...", "\t!", "\0", "\u{301}", "'", "$ #", " \u{a0} "]).to_string(),
@@ -151,6 +159,11 @@ impl Shape {
         }
         let (mut ml, mut mr) = *cx.rng.pick(gen::MARKERS);
         let mut st_m = if self.0 == Which::Titles { Some(St::build(lang, &recs, limit, (ml, mr))) } else { None };
+        if let (Some(m), true) = (st_m.as_mut(), cx.rng.chance(1, 4)) {
+            // the markers written straight into the public field instead of through the setter
+            m.store.dividers = (cv(ml), cv(mr));
+            cx.count("marker stores configured through the public field");
+        }
         let mut prev_q: Option<String> = None;
         let toks: Vec<TextOwn> = recs.iter().map(|r| st.tok_record(&r.1)).collect();
         let rgrams: Vec<BTreeSet<oracle::Gram>> = toks.iter().map(oracle::grams_of).collect();
